@@ -448,6 +448,26 @@ def r22_for_enumerate(src, item, ed, opts):
         ed.count("R22")
 
 
+def r27_for_vec(src, item, ed, opts):
+    """`for X in V { B }` with V a Vec of Copy items (consumed by the loop and not used after) ->
+    `let mut k = 0; while k < V.len() { let X = V[k]; k += 1; B }` — the increment comes first, so
+    `continue` in B keeps its meaning (Verus' for-loops do not support continue)
+    (for_vec=[{n=<loop ordinal>, k="vx_i"}])"""
+    loops = nodes_of(item, "loop")
+    for sp in opts.get("for_vec", []):
+        n = loops[sp["n"]] if sp["n"] < len(loops) else None
+        if n is None or n["loop_kind"] != "for":
+            raise LostAnchor(f"for-loop #{sp['n']} of {item['path']}")
+        v = src.text(*n["expr"]).strip()
+        if not re.fullmatch(r"[A-Za-z_][\w\.]*", v):
+            raise Unsupported(f"R27 expects `for X in <vec variable>`, found `{v}`")
+        k = sp.get("k", "vx_i")
+        pat = src.text(*n["pat"])
+        ed.replace(n["range"][0], n["body"][0], f"let mut {k}: usize = 0; while {k} < {v}.len() ", "R27")
+        ed.insert(n["body"][0] + 1, f" let {pat} = {v}[{k}]; {k} += 1; ", "R27", prio=-5)
+        ed.count("R27")
+
+
 def r24_call_shim(src, item, ed, opts):
     """generic named-site shim (covers R5, R6, R8, R11, R17): a call / method call / macro named
     in the sidecar is replaced by a call to a prelude shim whose spec is the std contract.
@@ -616,6 +636,7 @@ RULES = {
     "R20": r20_bytestr,
     "R21": r21_for_rev,
     "R22": r22_for_enumerate,
+    "R27": r27_for_vec,
     "R24": r24_call_shim,
 }
 
@@ -818,6 +839,8 @@ def extract_fn(src, spec, unit_rules):
     text = ed.apply(src, a, b)
     if free:
         text = lift_self(text, spec)
+    if spec.get("verifier_attrs"):
+        text = "\n".join(f"#[verifier::{x}]" for x in spec["verifier_attrs"]) + "\n" + text
     raw = src.text(a, b)
     return {
         "item": item,
